@@ -4,3 +4,5 @@ import PynProofs.SetOps
 import PynProofs.Search
 import PynProofs.Parseval
 import PynProofs.Diff
+import PynProofs.Union
+import PynProofs.Cover
